@@ -156,7 +156,7 @@ def c01_rules():
         lambda prog, tier: zerotol.run(prog, shared_eff(prog), "simplex"),
         lambda prog, tier: cert.run(prog, want=("OPT",)),
         lambda prog, tier: mark.run(prog, which=("QSexact_optimal_test",)),
-        lambda prog, tier: optstore.run(prog),
+        lambda prog, tier: optstore.run(prog), lambda prog, tier: optstore.run_solvedgate(prog),
         lambda prog, tier: exact.run(prog, cert_scopes(prog, "OPT")),
         lambda prog, tier: idxclass.run(prog, scope_units=("qsopt_ex/exact.c", "lib_mpq.c", "qsopt_mpq.c")),
         lambda prog, tier: certdep.run(prog, which=("QSexact_optimal_test",)),
@@ -173,7 +173,7 @@ def c02_rules():
         lambda prog, tier: lpstate.run_internal(prog),
         lambda prog, tier: cert.run(prog, want=("INF",)),
         lambda prog, tier: mark.run(prog, which=("QSexact_infeasible_test",)),
-        lambda prog, tier: optstore.run(prog),
+        lambda prog, tier: optstore.run(prog), lambda prog, tier: optstore.run_solvedgate(prog),
         lambda prog, tier: exact.run(prog, cert_scopes(prog, "INF")),
         lambda prog, tier: certdep.run(prog, which=("QSexact_infeasible_test",)),
     ]
@@ -652,7 +652,8 @@ PROPS = {
 # ------------------------------------------------------------------ texts of the rules added in session 3
 # (appended to the technique / explanation / level texts above so that MANIFEST and evidence name every deciding method)
 _ADD = {
-    "C01": {"explanation": " (R-ARGCAP) the solution vectors the driver allocates (through the converting copies' length headers) cover the "
+    "C01": {"explanation": " (R-SOLVEDGATE) the simplex driver hands out OPTIMAL / INFEASIBLE / UNBOUNDED only on the branch on which its pivot loop "
+                           "ended normally (solstatus == ILL_LP_SOLVED), never on a limit exit. (R-ARGCAP) the solution vectors the driver allocates (through the converting copies' length headers) cover the "
                            "internal-column space the optimality test subscripts them with.",
             "technique": "; interprocedural subscript-space requirement of pointer parameters against reaching allocation classes of local vectors",
             "level_text": " Since session 3 the presence, coverage, failing signs and data dependences of the test's own gates are decided too "
